@@ -1,14 +1,15 @@
 import MemVerif.Props.C01Ord
 /-!
-# C04 — no capacity is lost over any history (`memory_pool` over either intrusive free list)
+# C04 — no capacity is lost over any history (`memory_pool` over each of the three free lists)
 
 The pool invariant `PInvG` (`Lemmas/C01PoolG.lean`) carries an **exact accounting** clause: at every point of every
 history, the number of free cells plus the number of cells occupied by live allocations equals the number of cells the
 blocks in use were cut into (`usable size / node size` per block). Together with C01 (cells pairwise disjoint, inside
 the blocks) this says that every cell of every block is either on the free list or part of exactly one live
 allocation: releasing a node or an array makes exactly the memory that was taken available again, arrays included
-(`ceil(n / node_size)` cells both ways, the D3 repair), in any order of releases, for the unordered and for the
-ordered list, in every configuration.
+(`ceil(n / node_size)` cells both ways, the D3 repair), in any order of releases, for the unordered, the ordered and
+the small node list, in every configuration. For the intrusive lists the cells of a block are `usable size / node
+size` (`C04_blockcells_intrusive`); for the small list they are the nodes of the chunks `insert` builds in it.
 
 What this does *not* say (and what is false for the unordered list, finding D15): that an array request finds a
 contiguous run whenever enough cells are free.
@@ -17,24 +18,79 @@ namespace MemVerif.Props.C04Pool
 open MemVerif.Model MemVerif.Props.C01Ord
 
 /-- the capacity counter of a well-formed list is the number of its free cells -/
-theorem capacity_eq_cells {l : AnyList} (h : l.SInv) : l.capacity = l.cells.length := by
+theorem capacity_eq_cells {l : AnyList} {used : List Blk} {live : List (Nat × Nat)} (h : l.SInv used live) :
+    l.capacity = l.cells.length := by
   cases l with
   | free fl => exact h
   | ord ol => exact (show ol.Inv from h).cap
-  | small sl => exact absurd h (by simp [AnyList.SInv])
+  | small sl =>
+    have hS : SmallOk sl used live := h
+    show sl.cap = (sl.chunks.flatMap (Chunk.freeCells sl.ns)).length
+    rw [hS.invS.1]
+    have : ∀ cs : List Chunk, (∀ c ∈ cs, c.capacity = c.free.length) →
+        (cs.map Chunk.capacity).sum = (cs.flatMap (Chunk.freeCells sl.ns)).length := by
+      intro cs
+      induction cs with
+      | nil => intro _; rfl
+      | cons c cs ih =>
+        intro hc
+        simp only [List.map_cons, List.sum_cons, List.flatMap_cons, List.length_append]
+        rw [ih (fun x hx => hc x (List.mem_cons_of_mem _ hx)), hc c List.mem_cons_self]
+        simp [Chunk.freeCells]
+    exact this _ (fun c hc => (hS.invS.2 c hc).1)
+
+/-- number of cells the blocks in use were cut into -/
+def blockCellCount (l : AnyList) (used : List Blk) : Nat := (cellsOfBlocks l used).length
 
 /-- cells of the blocks in use: only grows along a history -/
-theorem blockCells_suffix (ns : Nat) {u u' : List Blk} (h : u <:+ u') : blockCells ns u ≤ blockCells ns u' := by
+theorem blockCellCount_suffix (l : AnyList) {u u' : List Blk} (h : u <:+ u') : blockCellCount l u ≤ blockCellCount l u' := by
   obtain ⟨t, rfl⟩ := h
-  simp [blockCells, List.map_append, List.sum_append]
+  simp [blockCellCount, cellsOfBlocks, List.flatMap_append]
+
+/-- for the two intrusive lists a block contributes `usable size / node size` cells -/
+theorem C04_blockcells_intrusive (l : AnyList) (used : List Blk) (h : ∀ P, l.obj ≠ .small P) :
+    blockCellCount l used = (used.map fun b => b.usable.size / l.nodeSize).sum := by
+  unfold blockCellCount
+  rw [cellsOfBlocks_intrusive l used h, blockCellList_length]
+  rfl
+
+/-- the block-cell function only depends on the kind and node size of the list -/
+theorem blockCells_eq_of {l l' : AnyList} (hns : l'.nodeSize = l.nodeSize) (hobj : l'.obj = l.obj) (b : Blk) :
+    l'.blockCells b = l.blockCells b := by
+  cases l with
+  | free fl =>
+    cases l' with
+    | free fl' => simp only [AnyList.nodeSize] at hns; simp [AnyList.blockCells, hns]
+    | ord ol' => simp [AnyList.obj] at hobj
+    | small sl' => simp [AnyList.obj] at hobj
+  | ord ol =>
+    cases l' with
+    | free fl' => simp [AnyList.obj] at hobj
+    | ord ol' => simp only [AnyList.nodeSize] at hns; simp [AnyList.blockCells, hns]
+    | small sl' => simp [AnyList.obj] at hobj
+  | small sl =>
+    cases l' with
+    | free fl' => simp [AnyList.obj] at hobj
+    | ord ol' => simp [AnyList.obj] at hobj
+    | small sl' => simp only [AnyList.nodeSize] at hns; simp [AnyList.blockCells, hns]
+
+/-- … which no operation changes -/
+theorem blockCellCount_run (cfg : Cfg) (e : EnvS) (ns : Nat) (o : AnyList.ListObj) (g : GPool) (k : Nat) (ops : List POp)
+    (hI : GInvG ns o g) (hfit : ∀ op ∈ ops, op.Fits ns) (henv : EnvOkG o (g.run cfg e k ops).1.p.arena.used)
+    (used : List Blk) : blockCellCount (g.run cfg e k ops).1.p.list used = blockCellCount g.p.list used := by
+  have h := GPool.run_invG cfg e ops g k hI hfit henv
+  unfold blockCellCount cellsOfBlocks
+  congr 2
+  funext b
+  exact blockCells_eq_of (h.nsEq.trans hI.nsEq.symm) (h.objEq.trans hI.objEq.symm) b
 
 /-- **Exact accounting at every point of every history**: the capacity counter plus the cells of the live
 allocations is the total number of cells of the blocks in use. `_partial`: `hfit` as for C01 (D21). -/
-theorem C04_ipool_capacity_exact_partial (cfg : Cfg) (e : EnvS) (ns : Nat) (o : Option Nat) (g : GPool) (k : Nat)
+theorem C04_ipool_capacity_exact_partial (cfg : Cfg) (e : EnvS) (ns : Nat) (o : AnyList.ListObj) (g : GPool) (k : Nat)
     (ops : List POp) (hI : GInvG ns o g) (hfit : ∀ op ∈ ops, op.Fits ns)
     (henv : EnvOkG o (g.run cfg e k ops).1.p.arena.used) :
     let g' := (g.run cfg e k ops).1
-    g'.p.list.capacity + (liveCells ns g'.live).length = blockCells ns g'.p.arena.used := by
+    g'.p.list.capacity + (liveCells ns g'.live).length = blockCellCount g'.p.list g'.p.arena.used := by
   intro g'
   have h := GPool.run_invG cfg e ops g k hI hfit henv
   rw [capacity_eq_cells h.sinv]
@@ -43,47 +99,53 @@ theorem C04_ipool_capacity_exact_partial (cfg : Cfg) (e : EnvS) (ns : Nat) (o : 
 /-- **No capacity is lost.** After any history at whose end everything allocated has been released (the ledger is
 empty), the pool's capacity is at least what it was at the start plus all cells that were live at the start: it is
 exactly the number of cells of all blocks in use, and the blocks in use at the start are still in use. -/
-theorem C04_ipool_no_capacity_lost_partial (cfg : Cfg) (e : EnvS) (ns : Nat) (o : Option Nat) (g : GPool) (k : Nat)
+theorem C04_ipool_no_capacity_lost_partial (cfg : Cfg) (e : EnvS) (ns : Nat) (o : AnyList.ListObj) (g : GPool) (k : Nat)
     (ops : List POp) (hI : GInvG ns o g) (hfit : ∀ op ∈ ops, op.Fits ns)
     (henv : EnvOkG o (g.run cfg e k ops).1.p.arena.used) (hall : (g.run cfg e k ops).1.live = []) :
     g.p.list.capacity + (liveCells ns g.live).length ≤ (g.run cfg e k ops).1.p.list.capacity ∧
-    (g.run cfg e k ops).1.p.list.capacity = blockCells ns (g.run cfg e k ops).1.p.arena.used := by
+    (g.run cfg e k ops).1.p.list.capacity =
+      blockCellCount (g.run cfg e k ops).1.p.list (g.run cfg e k ops).1.p.arena.used := by
   have h := C04_ipool_capacity_exact_partial cfg e ns o g k ops hI hfit henv
   simp only [hall, liveCells_nil, List.length_nil, Nat.add_zero] at h
-  have h0 : g.p.list.capacity + (liveCells ns g.live).length = blockCells ns g.p.arena.used := by
+  have h0 : g.p.list.capacity + (liveCells ns g.live).length = blockCellCount g.p.list g.p.arena.used := by
     rw [capacity_eq_cells hI.sinv]; exact hI.full
-  have hm := blockCells_suffix ns (GPool.run_used_suffix cfg e ops g k)
+  have hm := blockCellCount_suffix g.p.list (GPool.run_used_suffix cfg e ops g k)
+  have hr := blockCellCount_run cfg e ns o g k ops hI hfit henv (g.run cfg e k ops).1.p.arena.used
   exact ⟨by omega, h⟩
 
 /-- **A cycle restores the capacity exactly when the pool did not grow**: if the history releases everything it
 allocated and the block list at the end is the block list at the start, the capacity counter is back at its old
 value — for any interleaving of node and array allocations and any release order. -/
-theorem C04_ipool_cycle_exact_partial (cfg : Cfg) (e : EnvS) (ns : Nat) (o : Option Nat) (g : GPool) (k : Nat)
+theorem C04_ipool_cycle_exact_partial (cfg : Cfg) (e : EnvS) (ns : Nat) (o : AnyList.ListObj) (g : GPool) (k : Nat)
     (ops : List POp) (hI : GInvG ns o g) (hfit : ∀ op ∈ ops, op.Fits ns)
     (henv : EnvOkG o (g.run cfg e k ops).1.p.arena.used) (h0 : g.live = [])
     (hall : (g.run cfg e k ops).1.live = []) (hsame : (g.run cfg e k ops).1.p.arena.used = g.p.arena.used) :
     (g.run cfg e k ops).1.p.list.capacity = g.p.list.capacity := by
   have h := (C04_ipool_no_capacity_lost_partial cfg e ns o g k ops hI hfit henv hall).2
-  have hs : g.p.list.capacity = blockCells ns g.p.arena.used := by
+  have hs : g.p.list.capacity = blockCellCount g.p.list g.p.arena.used := by
     have := hI.full
     rw [h0] at this
-    simpa [capacity_eq_cells hI.sinv] using this
-  rw [h, hsame, hs]
+    simpa [capacity_eq_cells hI.sinv, blockCellCount] using this
+  rw [h, hsame, hs, blockCellCount_run cfg e ns o g k ops hI hfit henv]
 
 /-- each single allocation moves the capacity counter by exactly the number of cells it takes: a successful
 `allocate_node` by one, a successful `allocate_array(n)` by `ceil(n·node_size / node_size) = n` … stated through the
 accounting identity: capacity + live cells is unchanged by every operation that does not acquire a block. -/
-theorem C04_ipool_step_exact_partial (cfg : Cfg) (e : EnvS) (ns : Nat) (o : Option Nat) (g : GPool) (k : Nat) (op : POp)
+theorem C04_ipool_step_exact_partial (cfg : Cfg) (e : EnvS) (ns : Nat) (o : AnyList.ListObj) (g : GPool) (k : Nat) (op : POp)
     (hI : GInvG ns o g) (hfit : op.Fits ns) (henv : EnvOkG o (g.step cfg e k op).1.p.arena.used)
     (hsame : (g.step cfg e k op).1.p.arena.used = g.p.arena.used) :
     (g.step cfg e k op).1.p.list.capacity + (liveCells ns (g.step cfg e k op).1.live).length =
       g.p.list.capacity + (liveCells ns g.live).length := by
+  have hrun : (g.run cfg e k [op]).1 = (g.step cfg e k op).1 := rfl
   have h := GPool.step_invG cfg e g k op hI hfit henv
   have h1 := h.full
   have h2 := hI.full
   rw [← capacity_eq_cells h.sinv] at h1
   rw [← capacity_eq_cells hI.sinv] at h2
-  rw [h1, h2, hsame]
+  have hb := blockCellCount_run cfg e ns o g k [op] hI (by simpa using hfit) (by rw [hrun]; exact henv) g.p.arena.used
+  rw [hrun] at hb
+  unfold blockCellCount at hb
+  rw [h1, h2, hsame, hb]
 
 /-! ### non-vacuity -/
 
@@ -96,7 +158,7 @@ example :
       .dealloc 0, .dealloc 0, .dealloc 0]
     let c := Pool.create cfg (.growing 2 1 96) (.ord (OrdList.new 8 64 72)) true [e 0]
     let g := ((⟨c.st, []⟩ : GPool).run cfg e 1 ops).1
-    g.live = [] ∧ g.p.list.capacity = 32 ∧ blockCells 8 g.p.arena.used = 32 ∧ EnvOkG (some 64) g.p.arena.used := by
+    g.live = [] ∧ g.p.list.capacity = 32 ∧ blockCellCount g.p.list g.p.arena.used = 32 ∧ EnvOkG (.ordered 64) g.p.arena.used := by
   decide
 
 end MemVerif.Props.C04Pool
